@@ -62,7 +62,7 @@ SetWords(fl, a, vals) ==
 
 (* The effect of one mutation on the abstract image.  Positions are 0-based word numbers. *)
 Apply(S, op) ==
-  IF op.k \in {"FlipType", "SetLen"} THEN [S EXCEPT !.fs[op.f] = SetWords(@, op.a, <<MOD>>)]
+  IF op.k \in {"FlipType", "SetLen", "TypeLen"} THEN [S EXCEPT !.fs[op.f] = SetWords(@, op.a, <<MOD>>)]
   ELSE IF op.k = "IndexEntry" THEN [S EXCEPT !.fs[op.f] = SetWords(@, IdxWord(op.f, op.a), <<MOD>>)]
   ELSE IF op.k = "ZeroRun" THEN [S EXCEPT !.fs[op.f] = SetWords(@, op.a, Const(op.b - op.a, 0))]
   ELSE IF op.k = "Garbage" THEN [S EXCEPT !.fs[op.f] = SetWords(@, op.a, Const(op.b, GARB))]
@@ -109,6 +109,7 @@ IdxVals  == {"zero", "inhdr", "beyond", "misaligned", "commit", "self", "next", 
 ISVals   == {"zero", "inhdr", "beyond", "misaligned", "minus8", "plus4", "eof-2", "u64max", "i63"}
 MetaKinds == {"truncated", "wrongtype", "wrongtype2", "negative", "hugenext", "overflownext", "unsorted",
               "twotails", "sealedaftertail", "allsealed", "nosegments", "dupsegment", "hugerange",
+              "tailminlow", "sealedminlow", "maxbelowmin",     \* index bounds that contradict each other
               "empty", "garbage"}
 HdrVals == {<<"magic", "zero">>, <<"magic", "plus1">>, <<"magic", "flip">>, <<"version", "1">>,
             <<"version", "255">>, <<"reserved", "1">>,
@@ -137,6 +138,11 @@ FlipType(S, ST, VV) ==
   UNION {{Op("FlipType", s[1], "", s[2], 0, 0, v) : v \in VV \ {TypeOf(s[1], s[2])}} : s \in ST}
 SetLen(S, ST, VV) ==
   UNION {{Op("SetLen", s[1], "", s[2], 0, 0, v) : v \in VV} : s \in ST}
+(* the whole frame-header word damaged at once: another frame type AND an absurd length (one garbage word) *)
+TypeLenVals == {<<"2", "u32max">>, <<"2", "maxentry+1">>, <<"3", "u32max">>, <<"3", "i32max">>, <<"0", "u32max">>,
+                <<"255", "u32wrap8">>, <<"1", "u32max">>, <<"2", "i32min">>}
+TypeLen(S, ST, VV) ==
+  UNION {{Op("TypeLen", s[1], v[1], s[2], 0, 0, v[2]) : v \in VV} : s \in ST}
 ZeroRun(S, FF, LL) ==
   UNION {{Op("ZeroRun", f, "", r[1], r[2], 0, "") :
             r \in {r \in (0..(MaxW - 1)) \X (1..MaxW) :
@@ -177,6 +183,7 @@ Full(S) ==
        FlipType(S, Sites(S, FF, {"FE", "FI", "FC", "Z"}), TypeVals)
   \cup (IF Rich >= 2 THEN FlipType(S, Sites(S, FF, {"PL", "IX"}), {"1", "3"}) ELSE {})
   \cup SetLen(S, Sites(S, FF, {"FE", "FI", "FC", "Z"}), LenVals)
+  \cup TypeLen(S, Sites(S, FF, {"FE", "FI", "FC"}), TypeLenVals)
   \cup ZeroRun(S, FF, IF Rich >= 2 THEN 1..MaxW ELSE {1, 2, 4})
   \cup TruncateAt(S, Files, IF Rich >= 2 THEN {0, 1, 4, 7} ELSE {0, 4}, IF Rich >= 2 THEN MaxW ELSE HdrW)
   \cup Splice(S, FF, Rich >= 2, IF Rich >= 2 THEN {1, 2, 4} ELSE {1, 2})
